@@ -1,6 +1,6 @@
 (* C25 (suite zonefull) model-side runner: same case lines as harness/src/bin/impl_c25f.rs.
-   The generated tree becomes the model's file system (path -> content octets; paths looked up after
-   lexical resolution of `.`/`..`: OS path semantics are trusted).  The model is the include stack
+   The generated tree becomes the model's file system (path -> content octets; paths looked up by a component-wise
+   resolution of `.`/`..` in which every intermediate component must be an existing directory).  The model is the include stack
    machine of Model/ZfInc.v instantiated with the full zone-file parser model; the oracle column is
    the structural expansion (Spec/ZfIncS.v) of the same tree.
    Prints "<stack machine result> | <structural expand result>". *)
@@ -124,7 +124,24 @@ let () = run_lines (fun f ->
       let s = string_of_bytes p in
       if s <> "" && s.[0] = '/' then None
       else begin
-        let n = normalise s in
+        (* OS path resolution, component by component: every component that is followed by another one must be an
+           EXISTING DIRECTORY of the tree (`nosuchdir/../f` does not name `f`); above the scratch directory nothing is
+           known and the resolution stays lexical *)
+        let resolve (s : string) : string option =
+          let parts = Stdlib.List.filter (fun x -> x <> "" && x <> ".") (String.split_on_char '/' s) in
+          let rec go acc = function
+            | [] -> Some (String.concat "/" (Stdlib.List.rev acc))
+            | ".." :: r -> (match acc with
+                | ".." :: _ | [] -> go (".." :: acc) r
+                | _ :: a -> go a r)
+            | x :: r ->
+              let acc' = x :: acc in
+              if r = [] then go acc' r
+              else if (match acc with ".." :: _ -> true | _ -> false) then go acc' r
+              else if Hashtbl.mem dirs (String.concat "/" (Stdlib.List.rev acc')) then go acc' r
+              else None in
+          go [] parts in
+        match resolve s with None -> None | Some n ->
         let must_be_dir =
           let l = String.length s in
           (l >= 1 && s.[l - 1] = '/') || (l >= 2 && String.sub s (l - 2) 2 = "/.") || s = "." in
